@@ -10,6 +10,7 @@ Variable is_none : value -> bool.
 Variable sg : signature value.
 Variable env : wenv.
 Variable dc : deco value.
+Hypothesis NV : s_varpos sg = false.      (* functions without *args *)
 
 Notation param := (param value).
 Notation dict := (dict value).
@@ -25,7 +26,6 @@ Notation wc_ref := (wc_ref value is_none sg env dc).
 Notation tail_m := (tail_m value is_none sg env dc).
 Notation useds := (useds value dc).
 Notation unused_params := (unused_params value dc).
-Notation vrun := (run value is_none rcfg rr sg env dc).
 
 (* ---------- sequences of steps ---------- *)
 Definition item_ok (it : name * M value) (kv : name * value) : Prop :=
@@ -113,7 +113,7 @@ Definition titem (x : tagged) : name * M value := (fst (snd x), step_m (fst x) (
 Definition arrival (c : call value) : option (list tagged) :=
   if d_ignore_input dc then Some []
   else match bind_partial value sg (c_args c) with
-       | Ok bound => Some (map (pair false) (c_kwargs c) ++ map (pair true) bound)
+       | Ok (bound, _) => Some (map (pair false) (c_kwargs c) ++ map (pair true) bound)
        | Raise _ => None
        end.
 
@@ -121,7 +121,7 @@ Lemma wc_ref_arrival : forall c xs, arrival c = Some xs -> wc_ref c = mbind (seq
 Proof.
   intros c xs H. unfold arrival in H. unfold ValidateRef.wc_ref. destruct (d_ignore_input dc).
   - injection H as <-. cbn [map ValidateRef.seqm]. now rewrite mbind_ret_l.
-  - destruct (bind_partial value sg (c_args c)) as [bound|e]; [|discriminate]. injection H as <-.
+  - destruct (bind_partial value sg (c_args c)) as [[bound star]|e]; [|discriminate]. injection H as <-.
     rewrite map_app, seqm_app, !mbind_assoc, !map_map. unfold aitems, titem. cbn [fst snd].
     apply mbind_ext. intro l1. rewrite mbind_assoc. apply mbind_ext. intro l2. now rewrite mbind_ret_l.
 Qed.
@@ -129,7 +129,7 @@ Qed.
 Lemma wc_ref_no_arrival : forall c, arrival c = None -> exists e pn, snd (wc_ref c) = WRaise e pn.
 Proof.
   intros c H. unfold arrival in H. unfold ValidateRef.wc_ref. destruct (d_ignore_input dc); [discriminate|].
-  destruct (bind_partial value sg (c_args c)); [discriminate|].
+  destruct (bind_partial value sg (c_args c)) as [[bound star]|e0]; [discriminate|].
   rewrite snd_mbind. destruct (snd (seqm _)); cbn; eauto.
 Qed.
 
@@ -141,13 +141,13 @@ Lemma arrival_gives : forall c xs x, arrival c = Some xs -> In x xs -> caller_gi
 Proof.
   intros c xs x H I. unfold arrival in H. unfold caller_gives. destruct (d_ignore_input dc).
   - injection H as <-. contradiction.
-  - split; [reflexivity|]. unfold bind_partial in H. destruct (Nat.ltb _ _); [discriminate|]. injection H as <-.
+  - split; [reflexivity|]. unfold bind_partial in H. rewrite NV in H. destruct (Nat.ltb _ _); [discriminate|]. injection H as <-.
     apply in_app_or in I. apply in_or_app. destruct I as [I|I]; apply in_map_iff in I; destruct I as [[k w] [<- I]]; auto.
 Qed.
 
 Lemma gives_arrival : forall c xs n w, arrival c = Some xs -> caller_gives c n w -> exists x, In x xs /\ snd x = (n, w).
 Proof.
-  intros c xs n w H [Ig I]. unfold arrival in H. rewrite Ig in H. unfold bind_partial in H.
+  intros c xs n w H [Ig I]. unfold arrival in H. rewrite Ig in H. unfold bind_partial in H. rewrite NV in H.
   destruct (Nat.ltb _ _); [discriminate|]. injection H as <-.
   apply in_app_or in I. destruct I as [I|I].
   - exists (false, (n, w)). split; [|reflexivity]. apply in_or_app. left. now apply in_map.
@@ -198,7 +198,8 @@ Inductive origin (c : call value) (n : name) (v : value) : Prop :=
     In p (d_params dc) -> p_name p = n -> (forall w', ~ caller_gives c n w') -> p_default p = Some v -> origin c n v
 | OSigDefault (sp : sigparam value) :
     In sp (s_params sg) -> sp_name sp = n -> sp_default sp = Some v ->
-    ((forall w', ~ caller_gives c n w') \/ d_mode dc = KWARGS_WITHOUT_NONE) -> origin c n v
+    ((forall w', ~ caller_gives c n w') \/
+     (d_mode dc = KWARGS_WITHOUT_NONE /\ exists v0, origin c n v0 /\ is_none v0 = true)) -> origin c n v
 | OUndeclared :
     declared value dc n = false -> caller_gives c n v -> (d_strict dc = false \/ n = self_name) -> origin c n v.
 
@@ -377,16 +378,29 @@ Qed.
 Lemma In_norm : forall mode (r : dict) kv, In kv (norm value is_none mode r) -> In kv r.
 Proof. intros [] r kv H; simpl in H; try assumption. apply filter_In in H. tauto. Qed.
 
+Variable veq : value -> value -> bool.
+Notation vrun := (run value is_none veq rcfg rr sg env dc).
+
+Lemma run_ref_nv : forall is_async c,
+  vrun is_async c =
+  (fst (wc_ref c), match snd (wc_ref c) with WOk r => observe value is_none sg (d_mode dc) r | WRaise e pn => FRaise e pn end).
+Proof. intros. now apply run_ref. Qed.
+
 Lemma run_body_inv : forall is_async c j b, vrun is_async c = (j, FBody b) ->
   exists r, snd (wc_ref c) = WOk r /\ observe value is_none sg (d_mode dc) r = FBody b.
 Proof.
-  intros is_async c j b H. rewrite run_ref in H. injection H as _ H.
+  intros is_async c j b H. rewrite run_ref_nv in H. injection H as _ H.
   destruct (snd (wc_ref c)) as [r|e pn]; [eauto | discriminate].
 Qed.
 
 Lemma dget_norm_none : forall mode (r : dict) n, NoDup (keys r) -> dget n (norm value is_none mode r) = None ->
-  dget n r = None \/ mode = KWARGS_WITHOUT_NONE.
-Proof. intros [] r n ND H; cbn in H; auto. Qed.
+  dget n r = None \/ (mode = KWARGS_WITHOUT_NONE /\ exists v0, dget n r = Some v0 /\ is_none v0 = true).
+Proof.
+  intros [] r n ND H; cbn in H; auto.
+  unfold notnone in H. rewrite (dget_filter_val value (fun v => negb (is_none v)) n r ND) in H.
+  destruct (dget n r) as [v0|]; [|now left]. right. split; [reflexivity|]. exists v0. split; [reflexivity|].
+  destruct (is_none v0) eqn:E; [reflexivity|]. cbn in H. discriminate.
+Qed.
 
 Theorem gate : forall is_async c j b,
   self_guard c = true ->
@@ -402,15 +416,16 @@ Proof.
   apply in_app_or in I. destruct I as [I|I].
   - destruct (fill_In _ _ _ _ _ F I) as [I'|[sp [? [? [? Dn]]]]].
     + eapply result_origin; [eassumption | eapply In_norm; eassumption].
-    + eapply OSigDefault; eauto. destruct (dget_norm_none _ _ _ NDr Dn) as [Dr|Md]; [left | now right].
-      intros w' G. apply dget_None_keys in Dr. apply Dr. eapply supplied_in_result; eassumption.
+    + eapply OSigDefault; eauto. destruct (dget_norm_none _ _ _ NDr Dn) as [Dr|[Md [v0 [Dv Nv]]]]; [left | right].
+      * intros w' G. apply dget_None_keys in Dr. apply Dr. eapply supplied_in_result; eassumption.
+      * split; [assumption|]. exists v0. split; [|assumption]. subst n. eapply result_origin; [eassumption | now apply dget_In].
   - unfold extras in I. apply filter_In in I. eapply result_origin; [eassumption | eapply In_norm; apply I].
 Qed.
 
 (* ---------- C12: any rejection raises before the body ---------- *)
 Lemma run_raise_of_wc : forall is_async c e pn, snd (wc_ref c) = WRaise e pn ->
   snd (vrun is_async c) = FRaise e pn.
-Proof. intros. rewrite run_ref. cbn [snd]. now rewrite H. Qed.
+Proof. intros. rewrite run_ref_nv. cbn [snd]. now rewrite H. Qed.
 
 Lemma run_no_body_of_wc : forall is_async c, (forall r, snd (wc_ref c) <> WOk r) ->
   exists e pn, snd (vrun is_async c) = FRaise e pn.
@@ -439,7 +454,7 @@ Theorem first_failure_arrival : forall is_async c pre x post e pn,
   snd (snd (titem x)) = WRaise e pn ->
   vrun is_async c = (flat_map (fun y => fst (snd (titem y))) pre ++ fst (snd (titem x)), FRaise e pn).
 Proof.
-  intros is_async c pre x post e pn A Hpre Hm. rewrite run_ref, (wc_ref_arrival _ _ A), map_app. cbn [map].
+  intros is_async c pre x post e pn A Hpre Hm. rewrite run_ref_nv, (wc_ref_arrival _ _ A), map_app. cbn [map].
   rewrite (seqm_first_failure (map titem pre) (titem x) (map titem post) e pn); [|apply Forall_map; exact Hpre | exact Hm].
   cbn [mbind fst snd]. rewrite flat_map_concat_map, map_map, <- flat_map_concat_map. reflexivity.
 Qed.
@@ -488,7 +503,7 @@ Theorem first_failure_unused : forall is_async c xs pre p post e pn,
   vrun is_async c =
   (flat_map (fun y => fst (snd (titem y))) xs ++ flat_map (fun q => fst (u_m q)) pre ++ fst (u_m p), FRaise e pn).
 Proof.
-  intros is_async c xs pre p post e pn A Hxs U Hpre Hp. rewrite run_ref, (wc_ref_arrival _ _ A).
+  intros is_async c xs pre p post e pn A Hxs U Hpre Hp. rewrite run_ref_nv, (wc_ref_arrival _ _ A).
   assert (exists l12, Forall2 item_ok (map titem xs) l12) as [l12 F12].
   { clear A U. induction xs as [|x xs IH]; [exists []; constructor|]. inversion Hxs as [|? ? [v Hv] Hxs']; subst.
     destruct (IH Hxs') as [l F]. exists ((fst (snd x), v) :: l). constructor; [split; [reflexivity | exact Hv] | exact F]. }
@@ -518,7 +533,7 @@ Theorem raise_names_parameter : forall is_async c e n,
   snd (vrun is_async c) = FRaise e (Some n) ->
   exists p, In p (d_params dc) /\ p_name p = n /\ e = p_exc p /\ rejected_here c p.
 Proof.
-  intros is_async c e n H. rewrite run_ref in H. cbn [snd] in H.
+  intros is_async c e n H. rewrite run_ref_nv in H. cbn [snd] in H.
   destruct (snd (wc_ref c)) as [r|e' pn] eqn:W.
   - unfold observe in H. destruct (conv_m value is_none sg (d_mode dc) r). destruct (py_bind value sg l d); discriminate.
   - injection H as -> ->.
@@ -552,7 +567,7 @@ Proof.
            destruct (r_is_json rq && _); discriminate.
     + (* bind_partial failed: only the keyword loop can have named a parameter *)
       unfold arrival in A. unfold ValidateRef.wc_ref in W. destruct (d_ignore_input dc) eqn:Ig; [discriminate|].
-      destruct (bind_partial value sg (c_args c)); [discriminate|].
+      destruct (bind_partial value sg (c_args c)) as [[bound star]|e0]; [discriminate|].
       apply mbind_raise_inv in W. destruct W as [W|[l1 [_ W]]]; [|discriminate].
       apply seqm_raise_inv in W. destruct W as [it [I S]]. unfold aitems in I. apply in_map_iff in I.
       destruct I as [[k w] [<- Ik]]. cbn [fst snd] in S.
@@ -590,7 +605,7 @@ Theorem strict_too_many : forall is_async c x xs,
 Proof.
   intros is_async c x xs S A I D Hk Pass.
   destruct (strict_no_body is_async c x xs S A I D Hk) as [e [pn R]]. rewrite R.
-  rewrite run_ref in R. cbn [snd] in R. destruct (snd (wc_ref c)) as [r|e' pn'] eqn:W.
+  rewrite run_ref_nv in R. cbn [snd] in R. destruct (snd (wc_ref c)) as [r|e' pn'] eqn:W.
   - exfalso. destruct (wc_ok_inv _ _ W) as (xs' & l12 & l3 & A' & F12 & _ & _). rewrite A in A'. injection A' as <-.
     destruct (Forall2_in_l _ _ _ _ _ (titem x) F12 (in_map _ _ _ I)) as [kv [_ [_ Hv]]].
     unfold titem in Hv. cbn [snd] in Hv. rewrite step_undeclared_strict in Hv by assumption. discriminate.
